@@ -138,6 +138,9 @@ func observeC07(r *astRun) interface{} {
 			v = pgs.NilVisitor()
 		}
 		err := pgs.Walk(v, n)
+		if wk.Mode == "pass" && !passTwiceOK(r, n) {
+			run.trace = append(run.trace, []interface{}{ref{0, []int{888888}}, 0})
+		}
 		o := walkObs{Trace: run.trace, Err: noRef}
 		var ne nodeErr
 		if errors.As(err, &ne) {
@@ -147,7 +150,126 @@ func observeC07(r *astRun) interface{} {
 		}
 		out = append(out, o)
 	}
+	if len(out) > 0 && !nestedWalksOK(r) {
+		out[0].Trace = append(out[0].Trace, []interface{}{ref{0, []int{888889}}, 0})
+	}
 	return out
+}
+
+// recV records every node it is shown and descends everywhere; lim > 0: it prunes below depth lim
+// (depth 1 = the nodes it is shown first).
+type recV struct {
+	r     *astRun
+	trace *[]ref
+}
+
+func (v recV) see(e interface{}) (pgs.Visitor, error) {
+	*v.trace = append(*v.trace, v.r.refOf(e))
+	return v, nil
+}
+func (v recV) VisitPackage(e pgs.Package) (pgs.Visitor, error) {
+	*v.trace = append(*v.trace, ref{900000, []int{}})
+	return v, nil
+}
+func (v recV) VisitFile(e pgs.File) (pgs.Visitor, error)           { return v.see(e) }
+func (v recV) VisitMessage(e pgs.Message) (pgs.Visitor, error)     { return v.see(e) }
+func (v recV) VisitEnum(e pgs.Enum) (pgs.Visitor, error)           { return v.see(e) }
+func (v recV) VisitEnumValue(e pgs.EnumValue) (pgs.Visitor, error) { return v.see(e) }
+func (v recV) VisitField(e pgs.Field) (pgs.Visitor, error)         { return v.see(e) }
+func (v recV) VisitExtension(e pgs.Extension) (pgs.Visitor, error) { return v.see(e) }
+func (v recV) VisitOneOf(e pgs.OneOf) (pgs.Visitor, error)         { return v.see(e) }
+func (v recV) VisitService(e pgs.Service) (pgs.Visitor, error)     { return v.see(e) }
+func (v recV) VisitMethod(e pgs.Method) (pgs.Visitor, error)       { return v.see(e) }
+
+// childV lists the nodes it is shown and prunes below them.
+type childV struct{ nodes *[]pgs.Node }
+
+func (v childV) one(n pgs.Node) (pgs.Visitor, error) {
+	*v.nodes = append(*v.nodes, n)
+	return nil, nil
+}
+func (v childV) VisitPackage(e pgs.Package) (pgs.Visitor, error)     { return v.one(e) }
+func (v childV) VisitFile(e pgs.File) (pgs.Visitor, error)           { return v.one(e) }
+func (v childV) VisitMessage(e pgs.Message) (pgs.Visitor, error)     { return v.one(e) }
+func (v childV) VisitEnum(e pgs.Enum) (pgs.Visitor, error)           { return v.one(e) }
+func (v childV) VisitEnumValue(e pgs.EnumValue) (pgs.Visitor, error) { return v.one(e) }
+func (v childV) VisitField(e pgs.Field) (pgs.Visitor, error)         { return v.one(e) }
+func (v childV) VisitExtension(e pgs.Extension) (pgs.Visitor, error) { return v.one(e) }
+func (v childV) VisitOneOf(e pgs.OneOf) (pgs.Visitor, error)         { return v.one(e) }
+func (v childV) VisitService(e pgs.Service) (pgs.Visitor, error)     { return v.one(e) }
+func (v childV) VisitMethod(e pgs.Method) (pgs.Visitor, error)       { return v.one(e) }
+
+// passTwiceOK: a pass-through visitor around a pass-through visitor skips two levels - walking n
+// through it shows the inner visitor exactly what walking each direct child of n through ONE
+// pass-through visitor shows it, child after child. (Both sides are the real code.)
+func passTwiceOK(r *astRun, n pgs.Node) bool {
+	var kids []pgs.Node
+	_ = pgs.Walk(pgs.PassThroughVisitor(childV{&kids}), n)
+	want := []ref{}
+	for _, k := range kids {
+		_ = pgs.Walk(pgs.PassThroughVisitor(recV{r, &want}), k)
+	}
+	got := []ref{}
+	_ = pgs.Walk(pgs.PassThroughVisitor(pgs.PassThroughVisitor(recV{r, &got})), n)
+	return sameRefs(got, want)
+}
+
+// nestV starts, from inside VisitField, a walk of the message the field embeds - also when that
+// message is being walked further up the stack (recursive types) - and compares what that inner
+// walk sees with a walk of the same message started on its own.
+type nestV struct {
+	r     *astRun
+	alone map[string]int
+	bad   *bool
+}
+
+func (v nestV) VisitPackage(pgs.Package) (pgs.Visitor, error)     { return v, nil }
+func (v nestV) VisitFile(pgs.File) (pgs.Visitor, error)           { return v, nil }
+func (v nestV) VisitMessage(pgs.Message) (pgs.Visitor, error)     { return v, nil }
+func (v nestV) VisitEnum(pgs.Enum) (pgs.Visitor, error)           { return v, nil }
+func (v nestV) VisitEnumValue(pgs.EnumValue) (pgs.Visitor, error) { return v, nil }
+func (v nestV) VisitExtension(pgs.Extension) (pgs.Visitor, error) { return v, nil }
+func (v nestV) VisitOneOf(pgs.OneOf) (pgs.Visitor, error)         { return v, nil }
+func (v nestV) VisitService(pgs.Service) (pgs.Visitor, error)     { return v, nil }
+func (v nestV) VisitMethod(pgs.Method) (pgs.Visitor, error)       { return v, nil }
+func (v nestV) VisitField(f pgs.Field) (pgs.Visitor, error) {
+	if t := f.Type(); t != nil && t.IsEmbed() && t.Embed() != nil && !t.Embed().IsMapEntry() {
+		want, ok := v.alone[t.Embed().FullyQualifiedName()]
+		if ok {
+			tr := []ref{}
+			_ = pgs.Walk(recV{v.r, &tr}, t.Embed())
+			if len(tr) != want {
+				*v.bad = true
+			}
+		}
+	}
+	return v, nil
+}
+
+func nestedWalksOK(r *astRun) bool {
+	alone := map[string]int{}
+	var files []pgs.File
+	n := 0
+	for _, en := range allEntities(r) {
+		switch x := en.e.(type) {
+		case pgs.File:
+			files = append(files, x)
+		case pgs.Message:
+			if n++; n > 40 {
+				return true // large worlds: not worth the quadratic cost
+			}
+			if !x.IsMapEntry() {
+				tr := []ref{}
+				_ = pgs.Walk(recV{r, &tr}, x)
+				alone[x.FullyQualifiedName()] = len(tr)
+			}
+		}
+	}
+	bad := false
+	for _, f := range files {
+		_ = pgs.Walk(nestV{r, alone, &bad}, f)
+	}
+	return !bad
 }
 
 // genWalks picks start nodes and visitor policies for a world.
